@@ -22,8 +22,8 @@ RULE = (
     "returned by the parent is non-zero for at least one of the three derivative pairs (i.e. the "
     "parent really depended on the differentiated argument); distinct = descriptor hash."
 )
-MIN_NONTRIVIAL = {"quick": 300, "thorough": 6000}
-SHARDS = {"quick": 1, "thorough": 8}
+MIN_NONTRIVIAL = {"quick": 300, "thorough": 40000}
+SHARDS = {"quick": 1, "thorough": 16}
 GENERATOR = {"water": "T 60..400, p 15..20000", "oil": "C12 box; p in [15, 2.5 p_b] incl. p_b exactly", "gas": "pseudocritical points -120..10 F / 550..760 psia with T_r >= 1.05"}
 ASSUMPTIONS = [
     "dual-number class (vf/refmodels/dual.py) is cross-checked in every case against a Richardson "
@@ -53,7 +53,7 @@ def setup(ck):
 
 def generate(ck):
     rng = ck.rng
-    n = 400 if ck.tier == "quick" else 8000
+    n = 400 if ck.tier == "quick" else 60000
     descs = []
     for i in range(n):
         o = wl.oil_params(rng)
